@@ -436,6 +436,8 @@ func (b witnessBackend) Discard(ctx context.Context, key string) error {
 	return nil
 }
 
+func witnessB64(b []byte) string { return base64.StdEncoding.EncodeToString(b) }
+
 func witnessB2I(b bool) int {
 	if b {
 		return 1
